@@ -26,7 +26,8 @@ Definition links_of (w : world) (k : key) : list link :=
 
 (** the stored message is what was submitted *)
 Definition holds_submission (u : ustore) (id : Z) (p : parsed) : Prop :=
-  exists r, msg_of u id = Some r /\ m_hdrs r = p_hdrs p /\ parts_of (p_shape p) = Some (m_parts r).
+  exists r, msg_of u id = Some r /\ m_hdrs r = p_hdrs p /\ parts_of (p_shape p) = Some (m_parts r) /\
+            m_lost r = 0%nat.        (* every part's octets are inline or in its blob *)
 
 Definition accepted_ok (a : attempt) (folder : str) (p : parsed) : Prop :=
   exists k u' m l,
